@@ -5,6 +5,7 @@ import inspect
 import json
 import math
 import random
+import re
 from fractions import Fraction
 
 import common
@@ -503,6 +504,212 @@ def oracle_search(ctx, per_def=None, limit=None):
         for x in payloads_for(p, rnd, True, 6):
             n += 1
             r = oracle_check(db, sfx, p, fn, x)
+            if r and r[0] not in hits:
+                hits[r[0]] = (r[0], r[1], sfx, x)
+    return list(hits.values()), n
+
+
+# ----------------------------------------------------------------------------- encoders
+def encoder_functions(pgns_mod):
+    out = []
+    for name, fn in vars(pgns_mod).items():
+        if name.startswith("encode_pgn_") and inspect.isfunction(fn):
+            out.append((name[len("encode_pgn_"):], fn))
+    return out
+
+
+def field_spec(msg):
+    """canonical `idhex=value|raw;…` of a message's fields, or None when a value is outside the modelled universe"""
+    parts = []
+    for f in msg.fields:
+        v, r = canon(f.value), canon(f.raw_value)
+        if v.startswith("other:") or r.startswith("other:") or v == "S?" or r == "S?":
+            return None
+        try:
+            fid = f.id.encode("ascii")
+        except UnicodeEncodeError:
+            return None
+        parts.append(f"{harness.hx(fid)}={v}|{r}")
+    return ";".join(parts) if parts else None
+
+
+def real_enc(fn, msg):
+    try:
+        b = fn(msg)
+    except Exception as e:
+        return "err " + enc_err_class(e)
+    return "ok " + harness.hx(b)
+
+
+def mutate_values(f, dbf, rnd):
+    """value classes of C09 for one field of a decoded message: list of (label, value, raw)"""
+    t = dbf["FieldType"]
+    out = [("removed", None, None)]
+    n = dbf.get("BitLength", 8)
+    if t in ("NUMBER", "PGN") and "Resolution" in dbf:
+        res = dbf["Resolution"]
+        signed = bool(dbf.get("Signed"))
+        ofs = dbf.get("Offset", 0)
+        top = (1 << (n - 1)) - 2 if signed else (1 << n) - 2
+        bot = -(1 << (n - 1)) if signed else 0
+        for lab, raw in (("max", top), ("max+1", top + 1), ("max+2", top + 2), ("min", bot), ("min-1", bot - 1), ("far", top * 1000 + 7), ("neg", -5), ("zero", 0), ("mid", (top + bot) // 2)):
+            out.append((lab, raw * res + ofs, None))
+        step = res
+        out.append(("between", (top // 3) * res + ofs + step * 0.4, None))
+        out.append(("between-half", (top // 3) * res + ofs + step * 0.5, None))
+        out.append(("absent", None, None))
+        out.append(("nan", float("nan"), None))
+        out.append(("inf", float("inf"), None))
+        out.append(("string", "12", None))
+        out.append(("int-as-float", float(top // 2), None))
+    elif t == "RESERVED":
+        out += [("fits", (1 << n) - 1, None), ("too-big", (1 << n) + 3, None), ("negative", -1, None), ("absent", None, None), ("float", 1.0, None)]
+    elif t == "LOOKUP":
+        out += [("raw-fits", f.value, (1 << n) - 1), ("raw-too-big", f.value, (1 << n) + 1), ("by-name", f.value, None), ("bad-name", "No Such Name", None),
+                ("none-none", None, None), ("raw-float", f.value, 1.5)]
+    elif t == "DATE":
+        out += [("raw", f.value, 19000), ("by-value", datetime.date(2020, 2, 29), None), ("none", None, None), ("raw-big", f.value, (1 << n) + 5), ("value-str", "2020-01-01", None)]
+    elif t in ("TIME", "DURATION") and "Resolution" in dbf:
+        res = dbf["Resolution"]
+        out += [("raw-ticks", None, 49 * res), ("raw-big", None, ((1 << n) + 3) * res), ("raw-neg", None, -3 * res), ("absent", None, None),
+                ("by-time", datetime.time(1, 2, 3), None), ("raw-nan", None, float("nan")), ("raw-int", None, 60)]
+    elif t == "FLOAT":
+        out += [("v", 1.5, None), ("big", 1e39, None), ("nan", float("nan"), None), ("absent", None, None), ("int", 3, None)]
+    return out
+
+
+def suite_encoders(ctx, n_payloads=6, n_mut=2):
+    harness.load_repo()
+    import copy
+    from nmea2000 import pgns
+    db = Db(ctx["repo"])
+    rnd = random.Random(ctx["seed"] + 45)
+    s1 = common.Suite("gen-encoders-roundtrip", "every encode_pgn_* function applied to the messages its decoder returns for boundary payloads "
+                      "(per-field range ends, zero, NA, random) vs Interp.runEnc on the T1 encoder tables; also the decoded payload bytes themselves")
+    s2 = common.Suite("gen-encoders-values", "the value classes of C09 per field of every encodable definition: representable range ends, one and two steps beyond, far out, negative, "
+                      "between steps, absent, NaN/inf, wrong type, removed field; LOOKUP/DATE/TIME raw and by-value variants; vs Interp.runEnc")
+    decs = dict(decoder_functions(pgns))
+    skipped = 0
+    for sfx, efn in encoder_functions(pgns):
+        p = db.defs.get(sfx)
+        dfn = decs.get(sfx)
+        if p is None or dfn is None:
+            continue
+        base = None
+        pls = payloads_for(p, rnd, per_field=False, n_random=n_payloads) + [base_payload(p, rnd, "zero")]
+        # a few per-field boundary payloads as well
+        lay = layout(p)
+        for f, o in lay[:40]:
+            vals = boundary_raws(f, rnd)
+            v = rnd.choice(vals)
+            pls.append((base_payload(p, rnd, "zero") & ~(((1 << f["BitLength"]) - 1) << o)) | (v << o))
+        for x in pls:
+            try:
+                m = dfn(x)
+            except Exception:
+                continue
+            if m is None:
+                continue
+            spec = field_spec(m)
+            if spec is None:
+                skipped += 1
+                continue
+            s1.add(f"enc {sfx} {spec}", real_enc(efn, m), "roundtrip")
+            if base is None:
+                base = m
+        if base is None:
+            # no decodable payload: still exercise the encoder on an empty message (missing field / unsupported)
+            from nmea2000.message import NMEA2000Message
+            s2.add(f"enc {sfx} -", real_enc(efn, NMEA2000Message(PGN=p["PGN"], id=p["Id"])), "empty-message")
+            continue
+        idx = list(range(len(base.fields)))
+        rnd.shuffle(idx)
+        for i in idx[:max(1, n_mut)]:
+            dbf = p["Fields"][i]
+            for lab, val, raw in mutate_values(base.fields[i], dbf, rnd):
+                m = copy.deepcopy(base)
+                if lab == "removed":
+                    del m.fields[i]
+                else:
+                    m.fields[i].value = val
+                    if raw is not None or dbf["FieldType"] in ("LOOKUP", "DATE", "TIME", "DURATION"):
+                        m.fields[i].raw_value = raw
+                spec = field_spec(m)
+                if spec is None:
+                    skipped += 1
+                    continue
+                s2.add(f"enc {sfx} {spec}", real_enc(efn, m), f"{dbf['FieldType']}-{lab}")
+    s1.dist["skipped-unmodelled-values"] = skipped
+    return [s1.run(), s2.run()]
+
+
+# ----------------------------------------------------------------------------- C02 oracle: decode -> encode reproduces the defined bits
+ENCODABLE_TYPES = ("NUMBER", "PGN", "RESERVED", "FLOAT", "LOOKUP", "DATE", "TIME", "DURATION")
+
+
+def encodable(p):
+    return all(("BitOffset" in f and "BitLength" in f and f["FieldType"] in ENCODABLE_TYPES) for f in p["Fields"])
+
+
+def roundtrip_check(sfx, p, dfn, efn, x):
+    """None or (key, what): the property C02 on one payload, on the real code"""
+    try:
+        m = dfn(x)
+    except Exception:
+        return None          # the decoder does not accept this payload
+    if m is None:
+        return None
+    for f in m.fields:
+        if isinstance(f.value, float) and (math.isnan(f.value) or math.isinf(f.value)):
+            return None      # non-finite floats are excepted by the property
+    try:
+        b = efn(m)
+    except Exception as e:
+        mm = re.match(r"Value (\S+) out of range after scaling", str(e))
+        if mm:
+            for f, mf in zip(p["Fields"], m.fields):
+                if f["BitLength"] > 53 and repr(mf.value) == mm.group(1):
+                    return (f"C02/wide-field-range-end/{p['PGN']}.{f['Id']}",
+                            f"{sfx} field {f['Id']} ({f['BitLength']} bits): the decoded value {mf.value!r} at the end of the raw range rounds beyond the representable maximum and is rejected on re-encoding (payload {x})")
+        return (f"C02/reencode-raises/{sfx}", f"{sfx}: payload {x} decodes but encoding the decoded message raises {type(e).__name__}: {e}")
+    if "Length" in p and len(b) != p["Length"]:
+        return (f"C02/length/{sfx}", f"{sfx}: re-encoded payload has {len(b)} bytes, the definition's length is {p['Length']}")
+    y = int.from_bytes(b, "little")
+    for f in p["Fields"]:
+        n, o = f["BitLength"], f["BitOffset"]
+        a, c = (x >> o) & ((1 << n) - 1), (y >> o) & ((1 << n) - 1)
+        if a == c:
+            continue
+        if n > 48 and f["FieldType"] in ("NUMBER", "PGN", "TIME", "DURATION"):
+            sa = a - (1 << n) if f.get("Signed") and a >> (n - 1) else a
+            sc = c - (1 << n) if f.get("Signed") and c >> (n - 1) else c
+            if abs(sa - sc) <= abs(sa) / 2 ** 50 + 1:
+                continue
+        return (f"C02/field-bits/{p['PGN']}.{f['Id']}", f"{sfx} field {f['Id']} ({f['FieldType']}, {n} bits): raw {a} re-encodes as {c} (payload {x})")
+    return None
+
+
+def roundtrip_search(ctx, exhaustive_bits=10):
+    harness.load_repo()
+    from nmea2000 import pgns
+    db = Db(ctx["repo"])
+    rnd = random.Random(ctx["seed"] + 46)
+    decs = dict(decoder_functions(pgns))
+    hits = {}
+    n = 0
+    for sfx, efn in encoder_functions(pgns):
+        p = db.defs.get(sfx)
+        if p is None or not encodable(p) or sfx not in decs:
+            continue
+        pls = payloads_for(p, rnd, True, 6)
+        base = base_payload(p, rnd, "zero")
+        for f, o in layout(p):
+            if f["BitLength"] <= exhaustive_bits:
+                m = ((1 << f["BitLength"]) - 1) << o
+                pls += [(base & ~m) | (v << o) for v in range(1 << f["BitLength"])]
+        for x in pls:
+            n += 1
+            r = roundtrip_check(sfx, p, decs[sfx], efn, x)
             if r and r[0] not in hits:
                 hits[r[0]] = (r[0], r[1], sfx, x)
     return list(hits.values()), n
